@@ -103,7 +103,10 @@ def generate(batch: str, r: Rng, idx: int, tier: str) -> Dict[str, Any]:
             for op in ops:
                 if (op[1] & 0xF000) == 0x2000 and rl.chance(1, 2):
                     op[1] |= rl.range(1, 255) << 4
-        return {"kind": "bus", "exec": "py-lcd", "ops": ops}
+        # how the machine that owns the controller was built: plain, or with one of its LCD tracing options switched on
+        # (write trace to a file that is never saved here, display trace) — observers that must not take part in the protocol
+        owner = r.child("owner").choice(["default", "default", "lcd_trace", "display_trace"])
+        return {"kind": "bus", "exec": "py-lcd", "ops": ops, "owner": owner}
     if batch == "redraw":
         # a screen is drawn and shown; the controllers are reset (or not); the same layout is drawn again with other
         # contents — exactly as many instruction and data writes per chip — and shown again.  Frames are fetched only
@@ -191,7 +194,14 @@ def _run_py_bus(scn: Dict[str, Any]) -> Dict[str, Any]:
     controller at the base address of the window with the same low nibble."""
     from pce500.display.controller_wrapper import HD61202Controller
     from pce500.emulator import PCE500Emulator
-    emu = PCE500Emulator(save_lcd_on_exit=False, perfetto_trace=False)
+    kw = {}
+    if scn.get("owner") == "lcd_trace":
+        import os
+        from .. import machine
+        kw["lcd_trace_file"] = os.path.join(machine.scratch_dir(), f"lcd-trace-{os.getpid()}.json")
+    elif scn.get("owner") == "display_trace":
+        kw["enable_display_trace"] = True
+    emu = PCE500Emulator(save_lcd_on_exit=False, perfetto_trace=False, **kw)
     ref = HD61202Controller()
     trace = []
     for op in scn["ops"]:
@@ -237,7 +247,7 @@ def _check_bus(scn: Dict[str, Any], hist: Dict[str, Any]) -> List[dict]:
             continue
         if op[0] == 1 and want is not None and got != (want & 0xFF):
             viols.append({"cls": "read_value", "executor": "py-lcd", "where": {"level": "bus", "window": f"{op[1] & 0xF000:#06x}",
-                                                                                  "low_mirror": low_mirror},
+                                                                                  "low_mirror": low_mirror, **({"owner": scn["owner"]} if scn.get("owner", "default") != "default" and not low_mirror else {})},
                           "msg": f"op {i} read at {op[1]:#06x} through the machine bus returned {got}, the controller returns {want}",
                           "at": i})
             if not (low_mirror and len(rec) > 4 and rec[4]):
